@@ -22,7 +22,7 @@ type Ctx struct {
 
 func Main(prop string, run func(c *Ctx) error) {
 	log.SetOutput(io.Discard)
-	if runtime.GOOS != "linux" || runtime.GOARCH != "amd64" {
+	if runtime.GOOS != "linux" || (runtime.GOARCH != "amd64" && !(runtime.GOARCH == "386" && prop == "C01")) {
 		fmt.Fprintln(os.Stderr, "driver: only linux/amd64 is supported (float->uint64 conversion, int width)")
 		os.Exit(3)
 	}
